@@ -518,7 +518,14 @@ func (c *Ctx) callEnv(s *State, fc *FuncContract, callee *ssa.Function, cc *ssa.
 		}
 		// free variables of closures are bound by the caller when known
 	}
-	if fc != nil && len(fc.Params) > 0 {
+	if fc != nil && len(fc.Params) > 0 && callee != nil && len(callee.Blocks) > 0 && len(callee.Params) >= len(args) {
+		// repo function with positional parameter names: the i-th name denotes the i-th SSA parameter
+		for i, pn := range fc.Params {
+			if i < len(args) && i < len(callee.Params) {
+				env.vars[pn] = tv{args[i], callee.Params[i].Type()}
+			}
+		}
+	} else if fc != nil && len(fc.Params) > 0 {
 		// assumed contract: explicit parameter names; first is the receiver for invokes
 		all := args
 		var tys []types.Type
